@@ -1,6 +1,6 @@
-\* exhaustive, quick: 3 connections (1 request each), 2 shutdown callers, hooks {fast-or-slow, beyond the deadline}
+\* quick, exhaustive: 2 connections x 2 shutdown callers x hooks {any speed, beyond the deadline}, standard transport
 CONSTANTS
-  Conns = {c1, c2, c3}
+  Conns = {c1, c2}
   Callers = {k1, k2}
   Hooks = {h1, h2}
   BeyondHooks = {h2}
